@@ -28,7 +28,7 @@ type Flow struct {
 func NewFlow(p *Prog, cells *cellIndex) *Flow {
 	return &Flow{p: p, cells: cells, Through: map[string][]int{
 		"context.WithValue": {0}, "context.WithTimeout": {0}, "context.WithCancel": {0}, "context.WithDeadline": {0},
-		"context.WithoutCancel": {0},
+
 		"fmt.Errorf":            {-1}, "fmt.Sprintf": {-1}, "fmt.Sprint": {-1},
 	}}
 }
